@@ -189,6 +189,7 @@ type rxPacket struct {
 // Up to N parallel servers
 func (svr *Server) sftpServerWorker(pktChan chan orderedRequest) error {
 	for pkt := range pktChan {
+		vhook("work.begin", uint64(pkt.orderid), 0)
 		// readonly checks
 		readonly := true
 		switch pkt := pkt.requestPacket.(type) {
